@@ -409,7 +409,50 @@ class Round:
                     if m != r and r == ref:
                         self.fail('mismatch', 'model:unary%s:%s' % (op, self.kinds[i]),
                                   '%s $a with a=%s: real code %s, Lean model %s' % (op, self.show(i), r, m), case)
+        self.compositions()
         self.laws()
+
+    # ---- operators applied to the results of operators: the meaning of the outer one applied to the value of the inner
+    def compositions(self):
+        vals, n, hist = self.vals, self.n, self.hist
+
+        def py_un(op, a):
+            """('v', python value) | error tuple"""
+            if op == 'not':
+                return ('v', not a)
+            if not is_num(a):
+                return NOMATCH
+            return ('v', -a if op == '-' else +a)
+
+        forms = ['{o} {i} $a', '{o} ({i} $a)', '{o} ({i} ($a))', '{o}{i}$a']   # never `word(`: that is a call token
+        for o in UN_OPS:
+            for i_ in UN_OPS:
+                for fi, form in enumerate(forms):
+                    text = form.format(o=o, i=i_)
+                    if o == i_ == '-' and fi == 3:
+                        text = '- -$a'          # `--` could be read as one symbol by a customised table; keep it unambiguous
+                    if o in ('not',) and fi == 3:
+                        text = 'not %s$a' % i_ if i_ != 'not' else 'not not $a'
+                    if i_ == 'not' and fi == 3 and o != 'not':
+                        text = '%snot $a' % o
+                    try:
+                        st = ENGINE(text)
+                    except Exception as e:      # noqa
+                        self.fail('oracle', 'composition-parse', '%s does not parse: %r' % (text, e), dict(text=text))
+                        continue
+                    for k in range(n):
+                        a = vals[k]
+                        inner = py_un(i_, a)
+                        want = inner if inner[0] == 'e' else py_un(o, inner[1])
+                        want = want if want[0] == 'e' else ('v', cval(want[1]))
+                        got = real_eval(st, a)
+                        hist['compositions'] = hist.get('compositions', 0) + 1
+                        self.res.case('c|%s|%s' % (text, json.dumps(self.encs[k])), nontrivial=True)
+                        if got != want:
+                            self.fail('oracle', 'value:composition:%s%s:%s' % (o, i_, self.kinds[k]),
+                                      '%s with a=%s: real code gives %s, the meaning of the outer operator applied to the '
+                                      'result of the inner one is %s' % (text, self.show(k), got, want),
+                                      dict(text=text, a=self.encs[k], composition=True))
 
     # ---- the laws of the statement, on the real results alone
     def laws(self):
